@@ -17,6 +17,9 @@ use crate::application::Application;
 use crate::controller::Controller;
 use crate::core::{New};
 use crate::header::Header;
+use crate::mime_type::MimeType;
+use crate::range::Range;
+use crate::symbol::SYMBOL;
 
 use crate::request::{Request};
 use crate::response::{Response, STATUS_CODE_REASON_PHRASE};
@@ -35,6 +38,10 @@ impl Application for App {
     fn execute(&self, request: &Request, connection: &ConnectionInfo) -> Result<Response, String> {
         #[cfg(rws_verif)]
         crate::verif_hooks::point("app.execute.enter");
+        if !request.request_uri.starts_with(SYMBOL.slash) {
+            return Err(App::ERROR_REQUEST_TARGET_IS_NOT_IN_ORIGIN_FORM.to_string())
+        }
+
         let header_list = Header::get_header_list(&request);
 
         let mut response: Response = Response::get_response(
@@ -101,6 +108,8 @@ impl Application for App {
 }
 
 impl App {
+    pub const ERROR_REQUEST_TARGET_IS_NOT_IN_ORIGIN_FORM: &'static str = "request target has to start with a slash";
+
     pub fn handle_request(request: Request) -> (Response, Request) {
         #[cfg(rws_verif)]
         crate::verif_hooks::point("app.handle_request.enter");
@@ -112,7 +121,15 @@ impl App {
             None
         );
 
-
+        if !request.request_uri.starts_with(SYMBOL.slash) {
+            let message = App::ERROR_REQUEST_TARGET_IS_NOT_IN_ORIGIN_FORM;
+            response.status_code = *STATUS_CODE_REASON_PHRASE.n400_bad_request.status_code;
+            response.reason_phrase = STATUS_CODE_REASON_PHRASE.n400_bad_request.reason_phrase.to_string();
+            response.content_range_list = vec![
+                Range::get_content_range(Vec::from(message.as_bytes()), MimeType::TEXT_PLAIN.to_string())
+            ];
+            return (response, request)
+        }
 
         if IndexController::is_matching_request(&request) {
             response = IndexController::process_request(&request, response);
